@@ -6,7 +6,6 @@ import (
 	"os"
 	"os/exec"
 	"path/filepath"
-	"sort"
 	"strings"
 	"sync"
 
@@ -37,6 +36,7 @@ func Run(run *vh.Run) {
 	run.Floor("wall-clock sensitive transactions (touches of vesting accounts with end time between block time and a follower's clock)", run.Get("wallclock_sensitive_txs"), int64(run.N(4, 40)))
 	run.Floor("multi-destroy transactions", run.Get("multi_destroy_txs"), int64(run.N(3, 30)))
 	run.Floor("validator-set updates", run.Get("blocks_with_validator_updates"), 1)
+	run.Floor("claims from several validators in one transaction (order-sensitive)", run.Get("multi_validator_claim_txs"), int64(run.N(3, 30)))
 	run.Assumptions = append(run.Assumptions, "\"every node\" is sampled on this machine / OS / Go toolchain only",
 		"the Index flag of event attributes (node-local index-events setting) is not part of the compared event content",
 		"Log strings are compared and reported separately (not part of the statement)")
@@ -50,6 +50,7 @@ func variants(run *vh.Run, nBlocks int) []Variant {
 		{Name: "procs1", Binary: "plain", GoMaxProcs: 1},
 		{Name: "config-a", Binary: "plain", GoMaxProcs: 8, MinGasPrices: "5000000000wei", Pruning: "everything", IAVLCache: 10, InterBlockCache: true,
 			IndexEvents: []string{"message.sender"}, EVMTracer: "struct", QueryGasLimit: 1000, Telemetry: true},
+		{Name: "config-b", Binary: "plain", GoMaxProcs: 4, Pruning: "nothing", EVMTracer: "access_list", IAVLCache: 1000000},
 		{Name: "noisy", Binary: "plain", GoMaxProcs: 16, Noisy: true},
 		{Name: "kill-restart", Binary: "plain", GoMaxProcs: 4, LevelDB: true, KillAfter: nBlocks / 2},
 	}
@@ -58,7 +59,6 @@ func variants(run *vh.Run, nBlocks int) []Variant {
 			Variant{Name: "skew0", Binary: "skew", SkewSeconds: 0, GoMaxProcs: 1},
 			Variant{Name: "skew+30y-procs1", Binary: "skew", SkewSeconds: 30 * year, GoMaxProcs: 1},
 			Variant{Name: "skew-30y-procs16", Binary: "skew", SkewSeconds: -30 * year, GoMaxProcs: 16},
-			Variant{Name: "config-b", Binary: "plain", GoMaxProcs: 4, Pruning: "nothing", EVMTracer: "access_list", IAVLCache: 1000000},
 			Variant{Name: "config-c", Binary: "plain", GoMaxProcs: 16, Pruning: "custom", MinGasPrices: "0wei", InterBlockCache: true, LevelDB: true},
 			Variant{Name: "config-d", Binary: "plain", GoMaxProcs: 2, EVMTracer: "json", IndexEvents: []string{"tx.height"}, QueryGasLimit: 1},
 			Variant{Name: "config-e", Binary: "plain", GoMaxProcs: 3, Telemetry: true, Pruning: "everything", LevelDB: true, KillAfter: nBlocks / 3},
@@ -115,6 +115,25 @@ func oneHistory(run *vh.Run, label string, hi, nBlocks int) {
 		g.w.ResetPending()
 		ob := &vh.ObservedBlock{BlockResult: br}
 		record(ob, plans)
+		// measured: claims whose result carries rewards of >= 2 validators (order-sensitive transactions)
+		if br.Res != nil {
+			for i, p := range plans {
+				for _, cp := range g.claimAll {
+					if cp == p && i < len(br.Res.TxResults) {
+						n := 0
+						for _, ev := range br.Res.TxResults[i].Events {
+							if ev.Type == "withdraw_rewards" {
+								n++
+							}
+						}
+						if br.Res.TxResults[i].Code == 0 && n >= 2 {
+							run.Count("multi_validator_claim_txs", 1)
+							run.Max("max_validators_claimed_in_one_tx", int64(n))
+						}
+					}
+				}
+			}
+		}
 		if br.Err != nil {
 			run.Violation("finalize-block-error:leader", label, map[string]any{"height": br.Height, "err": br.Err.Error()})
 			break
@@ -376,7 +395,7 @@ func runFollower(binDir, dir, hist, queries string, v Variant) ([]BlockTrace, st
 			return nil, "", e
 		}
 	}
-	if code != 0 {
+	if code != 0 && !(code == 66 && v.Binary == "race") { // 66 = the race detector printed reports in a run that completed
 		return nil, "", fmt.Sprintf("exit %d: %s", code, tail(filepath.Join(fdir, "out.log")))
 	}
 	tr, err := ReadTrace(trace)
@@ -404,31 +423,26 @@ func runFollower(binDir, dir, hist, queries string, v Variant) ([]BlockTrace, st
 	return tr, nq, ""
 }
 
-// raceSummary turns race-detector output into an error text when an evermint frame is involved.
+// raceSummary turns race-detector output into an error text when repository code performs one of the racing
+// accesses (vh.ParseRaceLog: classification by access site; reports inside cosmos-sdk store / iavl between a
+// query goroutine and Commit are dependency-only and are not this property's subject).
 func raceSummary(rep string) string {
-	blocks := strings.Split(rep, "WARNING: DATA RACE")
 	var ever []string
-	for _, b := range blocks[1:] {
-		if strings.Contains(b, "github.com/EscanBE/evermint") {
-			// outermost evermint frames
-			var fr []string
-			for _, l := range strings.Split(b, "\n") {
-				l = strings.TrimSpace(l)
-				if strings.HasPrefix(l, "github.com/EscanBE/evermint") {
-					fr = append(fr, strings.SplitN(l, "(", 2)[0])
-				}
+	seen := map[string]bool{}
+	for _, r := range vh.ParseRaceLog(rep) {
+		if r.Class == "evermint" && !seen[r.Key] {
+			seen[r.Key] = true
+			t := r.Text
+			if len(t) > 3000 {
+				t = t[:3000]
 			}
-			sort.Strings(fr)
-			if len(fr) > 4 {
-				fr = fr[:4]
-			}
-			ever = append(ever, strings.Join(fr, " "))
+			ever = append(ever, r.Key+"\n"+t)
 		}
 	}
 	if len(ever) == 0 {
 		return ""
 	}
-	return "data race with evermint frames: " + strings.Join(ever, " || ")
+	return "race-detector reports with a repository access site: " + strings.Join(ever, "\n----\n")
 }
 
 func tail(path string) string {
